@@ -46,6 +46,15 @@ CLAIMED = {
  "C08": ("Partial (CAB): the content digest is identical for an unsigned cabinet, its signed form and its re-signed form (sign^2 with arbitrary blobs), the second signature replaces the first (no stacking, old bytes removed), payload equals the original.",
          "Trusted: engine, hash injectivity. n-fold histories beyond 2 follow by induction from digest invariance + replacement (argued, not run). Other formats outside this revision.",
          "DESIGN.md §4 C08"),
+ "C06": ("The real server.serveSign -> signinit.Init -> mod.Sign -> signinit.PublishAudit -> audit.AppendTo -> rw.Write chain runs with a fake token/signer and the audit file on the engine's os model with symbolic OS failures: a signature body is written only after exactly one record was appended as one newline-terminated line (existing records kept) naming key, signature type, digest, file name and client address; if the sink or the signer fails no body is written.",
+         "Trusted: engine os model (O_APPEND write = one step), json identity model (real json natively), opaque logging, z3. AMQP sink, concurrent writers (kernel O_APPEND atomicity, C14 territory) and the standalone command are outside this revision.",
+         "DESIGN.md §4 C06"),
+ "C07": ("Partial: x509tools.SameKey - the guard LoadTokenCertificates, LoadX509KeyPair, the PKCS#7 builder and xmldsig use to refuse a certificate that does not belong to the key - is decided over symbolic RSA (modulus, exponent) and ECDSA (x, y) keys, bare or wrapped in a crypto.Signer: true exactly for same algorithm and equal components, symmetric, false for unsupported key types.",
+         "Trusted: big.Int modelled as a 64-bit stand-in, engine, z3. Certificate parsing (PEM/DER/PKCS#12), the builder call sites and signature-value-verifies-under-leaf (crypto) are outside this revision.",
+         "DESIGN.md §4 C07"),
+ "C19": ("Narrow partial: the r||s encoding lib/xmldsig emits for ECDSA (EcdsaSignature.PackFixed) is 2*ceil(bits/8) bytes for every r, s that fit the curve size, big-endian r then s, and UnpackEcdsaSignature inverts it.",
+         "Trusted: big.Int as 64-bit stand-in (curve sizes 1..8 bytes stand for 32/48/66), engine, z3. Canonicalisation proper (etree DOM, W3C exc-c14n) is outside: external reference program, string/DOM code.",
+         "DESIGN.md §4 C19"),
 }
 
 NOT_APPLICABLE = {
